@@ -158,6 +158,35 @@ class Body:
                     st.extend(preds[x])
         return loops
 
+    def return_blocks(self):
+        return [i for i, b in enumerate(self.blocks) if b["t"]["k"] == "return" and not b["cleanup"]]
+
+    def path_avoiding(self, starts, avoid, goals):
+        """is there a CFG path from any block in `starts` to any block in `goals` that enters no block of `avoid`?
+        (starts themselves are not tested against avoid).  Returns the path (list of blocks) or None."""
+        succ = self.succ()
+        avoid = set(avoid)
+        goals = set(goals)
+        prev = {}
+        st = []
+        for s0 in starts:
+            if s0 not in prev:
+                prev[s0] = None
+                st.append(s0)
+        while st:
+            x = st.pop()
+            if x in goals:
+                path = [x]
+                while prev[path[-1]] is not None:
+                    path.append(prev[path[-1]])
+                return list(reversed(path))
+            for y in succ[x]:
+                if y in prev or y in avoid:
+                    continue
+                prev[y] = x
+                st.append(y)
+        return None
+
     # ---- iteration helpers
     def calls(self):
         for bi, b in enumerate(self.blocks):
